@@ -489,7 +489,10 @@ func (w *kqueue) readEvents() {
 			event := w.newEvent(path.name, path.linkName, mask)
 
 			if event.Has(Rename) || event.Has(Remove) {
-				w.remove(event.Name, false)
+				// Also unwatch the entries if a directory is renamed: unlike
+				// with a delete they don't get events of their own, so their
+				// descriptors would never be closed.
+				w.remove(event.Name, event.Has(Rename))
 				w.watches.markSeen(event.Name, false)
 			}
 
